@@ -81,6 +81,21 @@ def main():
             U, S, V = svd.svd(Dense(M), k, "LM", Lanczos(max_iters=50, tol=1e-12))
             check(M, U, S, V, k, inp, k == 4)
     elif rule == "lanczos":
+        # more than 100 singular values with the algorithm object's own (default) iteration cap: the cap of the Lanczos object must reach the Krylov process
+        for (m, n) in ((104, 108),):
+            r = min(m, n)
+            u, _ = np.linalg.qr(rnd(m, r))
+            v, _ = np.linalg.qr(rnd(n, r))
+            sv = (1.0 + np.arange(r))[::-1] / 4
+            M = (u * sv) @ v.T
+            inp = f"svd(Dense {m}x{n} real with singular values 0.25 .. {sv[0]}, k={r}, 'LM', Lanczos(tol=1e-12))"
+            try:
+                U, S, V = svd.svd(Dense(M), r, "LM", Lanczos(tol=1e-12))
+            except Exception as e:
+                found(clause="no exception", input=inp, observed=f"{type(e).__name__}: {str(e)[:200]}", expected="a decomposition")
+            if np.asarray(S.to_dense()).shape[0] != r:
+                found(clause="all requested singular triplets are returned", input=inp, observed=f"{np.asarray(S.to_dense()).shape[0]} triplets", expected=f"{r}")
+            check(M, U, S, V, r, inp, True)
         for (m, n) in ((6, 6), (9, 5), (5, 9), (12, 7), (4, 11), (1, 1), (3, 1), (1, 3)):
             for cplx in (False, True):
                 r = min(m, n)
